@@ -35,6 +35,13 @@ THEOREMS = [
     "Ymq.C08.inverter_new_spec",
     "Ymq.C08.invert_spec",
     "Ymq.C08.invert_spec_prime",
+    "Ymq.C08.inv_mod64_spec",
+    "Ymq.C08.mod_uint_spec",
+    "Ymq.C08.divmod_uint_spec",
+    "Ymq.C08.sqrt_mod_no_panic",
+    "Ymq.C08.sqrt_mod_exact",
+    "Ymq.C08.perfect_power_no_panic",
+    "Ymq.C08.mulmod_spec",
 ]
 HYPOTHESES = []
 PROFILES = ["release", "chk"]
@@ -654,13 +661,17 @@ def nontrivial(case, ans):
     return any(x not in ("0", "1", "-") for x in case.args[1:]) or len(case.args) == 1
 
 
-CLAIM = ("Lean theorems for all inputs of the word-exact models: the Dividers constructor accepts exactly p = 2 and "
-         "3 <= p < 2^30 not a power of two, its reciprocals satisfy 0 < m*p - 2^s <= p, and divmod64 / modu63 / modu16 / "
-         "modi64 / mod_u128 return the exact quotient and remainder without reaching any panic site; the models are tied "
-         "to the code by differential runs in both build profiles (every branch label of the model is reached) and a "
-         "Python big-integer oracle judges every implementation answer, including whole finite domains "
-         "(all n < 2^16 for every sampled p < 2^16).")
+CLAIM = ("Lean theorems for all inputs of the word-exact models: Dividers::new accepts exactly p = 2 and 3 <= p < 2^30 not a "
+         "power of two and its reciprocals satisfy 0 < m*p - 2^s <= p; divmod64 / modu63 / modu16 / modi64 / mod_u128 / "
+         "mod_uint / divmod_uint return the exact quotient and remainder for every operand without reaching a panic site; "
+         "Inverter::invert terminates and returns the inverse for every odd 3 <= p < 2^28 and 0 < x < p coprime to p; "
+         "pow_mod = n^k mod p; sqrt_mod returns a root exactly when one exists (prime p = 3 mod 4 or p < 2^24, square fits "
+         "the type); inv_mod64 is exact on all of u64 x u64 (p > 0); perfect_power / isqrt meet their specifications over "
+         "a floor-root specification function. The models are tied to the code by differential runs in both build "
+         "profiles (every branch label of the models is reached) and a Python big-integer oracle judges every "
+         "implementation answer, including whole finite domains through bulk requests.")
 LEVEL_NOTE = ("Trusted: Lean kernel (+propext, Classical.choice, Quot.sound), the hand-written models' correspondence to the "
               "Rust code (sampled by the harness, not proved), Python integers in the oracle. bnum operators and "
-              "num_integer roots are modelled as Nat arithmetic / floor roots.")
+              "num_integer roots are modelled as Nat arithmetic / floor roots; termination of squfof::isqrt from its "
+              "floating-point seed is checked by runs only.")
 TECHNIQUE = "Lean 4 proof about hand models + differential correspondence check + spec oracle"
